@@ -13,7 +13,7 @@ extern "C" {
 void* wocf_ZSTD_createCCtx(void); size_t wocf_ZSTD_freeCCtx(void*);
 size_t wocf_ZSTD_CCtx_setParameter(void*, int, int); size_t wocf_ZSTD_CCtx_reset(void*, int);
 size_t wocf_ZSTD_compressStream2(void*, ZSTD_outBuffer*, ZSTD_inBuffer*, int);
-size_t wocf_ZSTD_CCtx_loadDictionary(void*, const void*, size_t);
+size_t wocf_ZSTD_CCtx_loadDictionary(void*, const void*, size_t); size_t wocf_ZSTD_CCtx_refPrefix(void*, const void*, size_t);
 unsigned wocf_ZSTD_isError(size_t); const char* wocf_ZSTD_getErrorName(size_t);
 void* wocf_ZSTD_createDCtx(void); size_t wocf_ZSTD_freeDCtx(void*);
 size_t wocf_ZSTD_decompressStream(void*, ZSTD_outBuffer*, ZSTD_inBuffer*);
@@ -23,15 +23,15 @@ extern unsigned long long wocf_ZSTD_verif_probe[16];
 
 struct Api {
     void* (*create)(void); size_t (*freec)(void*); size_t (*setp)(void*, int, int); size_t (*reset)(void*, int);
-    size_t (*cs2)(void*, ZSTD_outBuffer*, ZSTD_inBuffer*, int); size_t (*loadDict)(void*, const void*, size_t); unsigned (*isErr)(size_t); const char* (*errName)(size_t);
+    size_t (*cs2)(void*, ZSTD_outBuffer*, ZSTD_inBuffer*, int); size_t (*loadDict)(void*, const void*, size_t); size_t (*refPrefix)(void*, const void*, size_t); unsigned (*isErr)(size_t); const char* (*errName)(size_t);
 };
 static size_t n_setp(void* c, int p, int v) { return ZSTD_CCtx_setParameter((ZSTD_CCtx*)c, (ZSTD_cParameter)p, v); }
 static size_t n_reset(void* c, int r) { return ZSTD_CCtx_reset((ZSTD_CCtx*)c, (ZSTD_ResetDirective)r); }
 static size_t n_cs2(void* c, ZSTD_outBuffer* o, ZSTD_inBuffer* i, int e) { return ZSTD_compressStream2((ZSTD_CCtx*)c, o, i, (ZSTD_EndDirective)e); }
-static const Api NORMAL = {(void* (*)())ZSTD_createCCtx, (size_t (*)(void*))ZSTD_freeCCtx, n_setp, n_reset, n_cs2, (size_t (*)(void*, const void*, size_t))ZSTD_CCtx_loadDictionary, ZSTD_isError, ZSTD_getErrorName};
-static const Api WOCF = {wocf_ZSTD_createCCtx, wocf_ZSTD_freeCCtx, wocf_ZSTD_CCtx_setParameter, wocf_ZSTD_CCtx_reset, wocf_ZSTD_compressStream2, wocf_ZSTD_CCtx_loadDictionary, wocf_ZSTD_isError, wocf_ZSTD_getErrorName};
+static const Api NORMAL = {(void* (*)())ZSTD_createCCtx, (size_t (*)(void*))ZSTD_freeCCtx, n_setp, n_reset, n_cs2, (size_t (*)(void*, const void*, size_t))ZSTD_CCtx_loadDictionary, (size_t (*)(void*, const void*, size_t))ZSTD_CCtx_refPrefix, ZSTD_isError, ZSTD_getErrorName};
+static const Api WOCF = {wocf_ZSTD_createCCtx, wocf_ZSTD_freeCCtx, wocf_ZSTD_CCtx_setParameter, wocf_ZSTD_CCtx_reset, wocf_ZSTD_compressStream2, wocf_ZSTD_CCtx_loadDictionary, wocf_ZSTD_CCtx_refPrefix, wocf_ZSTD_isError, wocf_ZSTD_getErrorName};
 
-struct FrameSpec { gen::ParamSet ps; std::vector<uint8_t> x, dict; std::vector<std::pair<size_t, int>> steps; };
+struct FrameSpec { gen::ParamSet ps; std::vector<uint8_t> x, dict; bool asPrefix = false; std::vector<std::pair<size_t, int>> steps; };
 
 // the same call sequence on a given build/context; returns false on a library error
 static bool run_frame(const Api& A, void* cctx, const FrameSpec& F, std::vector<uint8_t>& out, std::string* err) {
@@ -39,7 +39,7 @@ static bool run_frame(const Api& A, void* cctx, const FrameSpec& F, std::vector<
     size_t r = A.reset(cctx, ZSTD_reset_session_and_parameters);
     if (A.isErr(r)) { *err = A.errName(r); return false; }
     for (auto& pv : F.ps.v) { r = A.setp(cctx, (int)pv.p, pv.v); if (A.isErr(r)) { *err = std::string(pv.name) + ": " + A.errName(r); return false; } }
-    if (!F.dict.empty()) { r = A.loadDict(cctx, F.dict.data(), F.dict.size()); if (A.isErr(r)) { *err = std::string("dict: ") + A.errName(r); return false; } }
+    if (!F.dict.empty()) { r = F.asPrefix ? A.refPrefix(cctx, F.dict.data(), F.dict.size()) : A.loadDict(cctx, F.dict.data(), F.dict.size()); if (A.isErr(r)) { *err = std::string("dict: ") + A.errName(r); return false; } }
     std::vector<uint8_t> ob(ZSTD_compressBound(F.x.size()) + 1024 + 64 * F.steps.size());
     ZSTD_outBuffer o = {ob.data(), ob.size(), 0};
     size_t pos = 0;
@@ -78,15 +78,24 @@ void vf_case(vf::Ctx& c) {
             F.ps.v.push_back({ZSTD_c_windowLog, (int)t.range(10, t.chance(70) ? 14 : 19), "windowLog"});
             if (!F.ps.has(ZSTD_c_chainLog) && t.chance(50)) F.ps.v.push_back({ZSTD_c_chainLog, (int)t.range(6, 12), "chainLog"});
             if (!F.ps.has(ZSTD_c_hashLog) && t.chance(50)) F.ps.v.push_back({ZSTD_c_hashLog, (int)t.range(6, 12), "hashLog"});
+            // a third of the lives run the long-distance matcher (its own window, hash table and dictionary end survive in the context)
+            if (!F.ps.has(ZSTD_c_enableLongDistanceMatching) && t.chance(35)) {
+                F.ps.v.push_back({ZSTD_c_enableLongDistanceMatching, 1, "ldm"});
+                if (t.flip()) F.ps.v.push_back({ZSTD_c_ldmMinMatch, (int)t.range(4, 64), "ldmMinMatch"});
+                if (t.flip()) F.ps.v.push_back({ZSTD_c_ldmHashLog, (int)t.range(6, 12), "ldmHashLog"});
+                if (t.flip()) F.ps.v.push_back({ZSTD_c_ldmHashRateLog, (int)t.range(0, 4), "ldmHashRateLog"});
+            }
             family = F.ps;
         } else F.ps = family;
+        bool ldm = F.ps.get(ZSTD_c_enableLongDistanceMatching, 0) == 1;
         if (gen::estimate_mem(F.ps) > (300ull << 20)) c.discard("memcap");
         int lvl = F.ps.get(ZSTD_c_compressionLevel, 3), strat = F.ps.get(ZSTD_c_strategy, 0);
         size_t wl = (size_t)F.ps.get(ZSTD_c_windowLog, 10);
         size_t maxsz = (lvl >= 16 || strat >= 7) ? (150u << 10) : (g_thorough ? (2u << 20) : (700u << 10));
         gen::ContentInfo ci;
-        F.x = gen::gen_content(t, maxsz, &ci, (size_t)1 << wl);
-        if (t.chance(20)) { F.dict = gen::gen_content_sized(t, (size_t)t.range(8, 20000)); if (F.dict.size() >= 4 && F.dict[0] == 0x37 && F.dict[1] == 0xA4) F.dict[0] = 1; if (F.x.size() > F.dict.size() && F.dict.size() > 64) memcpy(F.x.data(), F.dict.data() + F.dict.size() - 64, 64); }
+        if (ldm && ((size_t)3 << wl) < maxsz && t.flip()) F.x = gen::gen_content_sized(t, (size_t)t.range((size_t)2 << wl, maxsz), &ci, (size_t)1 << wl);   // longer than the window
+        else F.x = gen::gen_content(t, maxsz, &ci, (size_t)1 << wl);
+        if (t.chance(ldm ? 40 : 20)) { F.asPrefix = t.flip(); F.dict = gen::gen_content_sized(t, (size_t)t.range(8, 20000)); if (F.dict.size() >= 4 && F.dict[0] == 0x37 && F.dict[1] == 0xA4) F.dict[0] = 1; if (F.x.size() > F.dict.size() && F.dict.size() > 64) memcpy(F.x.data(), F.dict.data() + F.dict.size() - 64, 64); }
         unsigned ns = (unsigned)t.range(0, 5);
         for (unsigned i = 0; i < ns; i++) F.steps.push_back({se::gen_chunk(t), t.chance(30) ? ZSTD_e_flush : ZSTD_e_continue});
         std::string err;
@@ -109,7 +118,7 @@ void vf_case(vf::Ctx& c) {
         {
             ZSTD_DCtx* d = ZSTD_createDCtx(); std::vector<uint8_t> back(F.x.size() + 1);
             ZSTD_DCtx_setParameter(d, ZSTD_d_windowLogMax, 31);
-            if (!F.dict.empty()) ZSTD_DCtx_loadDictionary(d, F.dict.data(), F.dict.size());
+            if (!F.dict.empty()) { if (F.asPrefix) ZSTD_DCtx_refPrefix(d, F.dict.data(), F.dict.size()); else ZSTD_DCtx_loadDictionary(d, F.dict.data(), F.dict.size()); }
             size_t r = ZSTD_decompressDCtx(d, back.data(), back.size(), a.data(), a.size());
             ZSTD_freeDCtx(d);
             VF_CHECK(c, !ZSTD_isError(r) && r == F.x.size() && (F.x.empty() || !memcmp(back.data(), F.x.data(), r)), "frame %u of a long-lived context (%llu index corrections during it, %llu bytes before it) does not round-trip: %s", fi, corrections, total - F.x.size(), ZSTD_isError(r) ? ZSTD_getErrorName(r) : "content differs");
@@ -124,6 +133,7 @@ void vf_case(vf::Ctx& c) {
             c.fail("frame %u: long-lived context with forced index corrections (%llu during this frame) produced %zu bytes, a fresh context in the normal build %zu bytes; first difference at %zu [%s, %zu bytes]", fi, corrections, a.size(), b.size(), i, F.ps.str().c_str(), F.x.size());
         }
         if (corrections) c.label("frames_with_index_correction");
+        if (ldm) c.label("frames_with_ldm");
     }
     unsigned long long corrs = wocf_ZSTD_verif_probe[0] - corr0, invals = wocf_ZSTD_verif_probe[1] - inval0;
     c.label("index_corrections", corrs);
